@@ -268,6 +268,8 @@ def rules(rep, facts):
         r4_none_and_insert(rep, facts)
         from .rules_serdeflow import r_value_serializers
         r_value_serializers(rep, facts, 'C13/R11', judge='agree')
+        from .rules_serdeflow import r_round_trip
+        r_round_trip(rep, facts, 'C13/R12')
         from .rules_c07 import r3_promotion
         r3_promotion(rep, facts)
         rep.relabel('C07/R3', 'C13/R9', 'the pretty route prints what the plain route prints (a formatting pass that promotes tables inside values loses them: the text then decodes to another value): ')
